@@ -156,3 +156,50 @@ Proof.
   destruct (triples_map c G O items Ho Hd Hit) as [_ [_ [A _]]]. fold r T in A.
   eapply perm_trans; [exact A|]. apply delivered_vs_relevant; auto.
 Qed.
+
+(** ** the model's reading position of pass 1 is the frozen tracker's:
+    where [consumption] says the tracker stops after [n] triples, the tracker
+    model ([Tracker.track]) computes the same dictionary from the first [n]
+    triples as from the whole stream; where it says the tracker dies, the
+    tracker model fails. *)
+Lemma consume_cap_stop tau m cap nt g d st k n :
+  consume_cap tau m cap nt g st k = CStop n ->
+  k < n /\ track_cap tau m cap nt g d st = track_cap tau m cap nt (firstn (n - k) g) d st.
+Proof.
+  revert d st k. induction g as [|t g IH]; intros d st k H; cbn [consume_cap] in H; [discriminate|].
+  assert (Hstep : forall k', k < k' -> S (k' - S k) = k' - k) by (intros; lia).
+  destruct (cap_allows tau cap st t) as [[|]|] eqn:Ea; try discriminate.
+  - destruct (relevant tau m t) eqn:Er.
+    + destruct (to t) as [o|] eqn:Eo; [|discriminate].
+      destruct nt as [nt'|].
+      * match type of H with (if ?b then _ else _) = _ => destruct b eqn:Eb end.
+        -- inversion H; subst n. split; [lia|]. replace (S k - k) with 1 by lia.
+           cbn [firstn track_cap]. rewrite Ea, Er, Eo, Eb. reflexivity.
+        -- pose proof (fun d' => IH d' _ _ H) as IH'. split; [destruct (IH' d); lia|].
+           rewrite <- (Hstep n) by (destruct (IH' d); lia). cbn [firstn track_cap]. rewrite Ea, Er, Eo, Eb.
+           apply (proj2 (IH' _)).
+      * pose proof (fun d' => IH d' _ _ H) as IH'. split; [destruct (IH' d); lia|].
+        rewrite <- (Hstep n) by (destruct (IH' d); lia). cbn [firstn track_cap]. rewrite Ea, Er, Eo.
+        apply (proj2 (IH' _)).
+    + destruct (IH d _ _ H) as [Hk E]. split; [lia|].
+      rewrite <- (Hstep n) by lia. cbn [firstn track_cap]. rewrite Ea, Er. apply E.
+  - destruct (IH d _ _ H) as [Hk E]. split; [lia|].
+    rewrite <- (Hstep n) by lia. cbn [firstn track_cap]. rewrite Ea. apply E.
+Qed.
+
+Lemma consumption_stop_track tau m cap g n :
+  consumption tau m cap g = CStop n -> track tau m cap g = track tau m cap (firstn n g).
+Proof.
+  unfold consumption, track. destruct (cap <=? 0)%Z.
+  - intros H. exfalso. revert H. generalize 0 at 1. induction g as [|t g IH]; intros k; cbn; [discriminate|].
+    destruct (relevant tau m t); [|apply IH]. destruct (to t); [apply IH | discriminate].
+  - intros H. destruct (consume_cap_stop _ _ _ _ _ [] _ _ _ H) as [_ E]. rewrite Nat.sub_0_r in E. exact E.
+Qed.
+
+Lemma consume_plain_err tau m g d k n : consume_plain tau m g k = CErr n -> track_plain tau m g d = inr TEAttr.
+Proof.
+  revert d k. induction g as [|t g IH]; intros d k H; cbn in *; [discriminate|].
+  destruct (relevant tau m t).
+  - unfold annotate. destruct (to t); [eapply IH; eauto | reflexivity].
+  - eapply IH; eauto.
+Qed.
